@@ -93,6 +93,12 @@ def check(chk, rule, repo, rel, qualname, what, **kw):
                what='%s exists (%s)' % (qualname, what))
         return False
     func = repo.func(rel, qualname)
+    if ('%s::%s' % (rel, qualname)) not in store():
+        # a function added after the review: its callers' normal forms are
+        # what is compared; nothing to compare it with
+        chk.info('no reviewed reference for %s::%s (new function)'
+                 % (rel, qualname))
+        return True
     ok, oa, ob = compare(func, rel, qualname, **kw)
     chk.ob(rule, ok, rel, func, key='reviewed:' + qualname, what=what,
            found=' || '.join(oa)[:900] if oa else None,
